@@ -40,7 +40,11 @@ let run_case cid (t : toks) =
   | "par" ->
     let meth = next t in let sweeps = next_nat t in let omega = next_q t in
     let _tap = next_int t in let _ppn = next_int t in let _scr = next_int t in let _np = next_int t in
+    let tinyrow = next_int t in
     let (n, rows) = parse_parlit t in
+    (* the C++ driver overwrites the stored diagonal of row `tinyrow` with 2^-60 after construction *)
+    let tiny = q_of_token "0x1p-60" in
+    let rows = List.mapi (fun i r -> if i = tinyrow then List.map (fun (c, v) -> if int_of_nat c = i then (c, tiny) else (c, v)) r else r) rows in
     let x = next_qs t n in let b = next_qs t n in
     let kw = next t in
     if kw <> "parts" then failwith "parts expected";
